@@ -208,6 +208,70 @@ def pats_str(l):
     return '%d [%s]' % (len(l), ' ; '.join(pat_str(p) for p in l))
 
 
+def parse_tree(st):
+    t = st.next()
+    if t in ('I', 'A'):
+        l = parse_tree(st)
+        r = parse_tree(st)
+        return (t, l, r)
+    if t[0] in 'XU':
+        return (t, parse_tree(st))
+    return t
+
+
+def to_real(tree, wrap=True):
+    """prefix tree -> real Pattern; shapes of kore-rewrites / not are re-built through the real notations so that
+    comparisons mix Instantiate and plain patterns"""
+    import proof_generation.proofs.kore as kl
+    if isinstance(tree, str):
+        c, rest = tree[0], tree[1:]
+        if c == 'e':
+            return P.EVar(int(rest))
+        if c == 's':
+            return P.SVar(int(rest))
+        if c == 'm':
+            return P.MetaVar(int(rest))
+        if c == 'y':
+            return P.Symbol(unhex(rest))
+        raise Bad()
+    if wrap:
+        sp = split_rewrites(tree)
+        if sp is not None:
+            return kl.kore_rewrites(to_real(sp[0]), to_real(sp[1]), to_real(sp[2]))
+        if tree[0] == 'I' and tree[2] == ('U0', 's0'):
+            return P.neg(to_real(tree[1]))
+        if tree == ('U0', 's0'):
+            return P.bot()
+    if tree[0] == 'I':
+        return P.Implies(to_real(tree[1]), to_real(tree[2]))
+    if tree[0] == 'A':
+        return P.App(to_real(tree[1]), to_real(tree[2]))
+    if tree[0][0] == 'X':
+        return P.Exists(int(tree[0][1:]), to_real(tree[1]))
+    if tree[0][0] == 'U':
+        return P.Mu(int(tree[0][1:]), to_real(tree[1]))
+    raise Bad()
+
+
+def split_rewrites(tree):
+    bot = ('U0', 's0')
+    try:
+        i0, a, b = tree
+        an, nxt, rhs = b
+        i1, c, bot1 = a
+        i2, d, bot2 = c
+        i3, e, f = d
+        i4, lhs, bot3 = e
+        i5, g, bot4 = f
+        a2, inh, srt = g
+        if (i0, i1, i2, i3, i4, i5, an, a2) == ('I',) * 6 + ('A', 'A') and bot1 == bot2 == bot3 == bot4 == bot \
+                and nxt == 'y' + hexs('kore_next') and inh == 'y' + hexs('inhabitant'):
+            return srt, lhs, rhs
+    except (ValueError, TypeError):
+        pass
+    return None
+
+
 class BIO(io.BytesIO):
     final = None
 
@@ -248,6 +312,38 @@ def run(line):
                   == [100 + i for i in range(len(scope._sort_param_metavars))])
         unused = bool(scope._evars or scope._svars)
         return {'res': 'OK %s | %s | %s' % (pat_str(pat), names, snames) + ('' if ids_ok and not unused else ' !ids')}
+    if cmd == 'HINTS':
+        from proof_generation.k.kore_convertion.language_semantics import KEquationalRule, KRewritingRule
+        from proof_generation.k.kore_convertion.rewrite_steps import RewriteStepExpression
+        sig = p_sig(st)
+        hints = []
+        for _ in range(st.int()):
+            before = to_real(parse_tree(st))
+            after = to_real(parse_tree(st))
+            kind = st.next()
+            o = st.int()
+            rp = to_real(parse_tree(st))
+            d = {}
+            for _ in range(st.int()):
+                i = st.int()
+                d[i] = to_real(parse_tree(st))
+            rule = KRewritingRule(o, rp) if kind == 'R' else KEquationalRule(o, rp)
+            hints.append(RewriteStepExpression(before, after, rule, d))
+        stage = 'load'
+        try:
+            sem = LanguageSemantics.from_kore_definition(definition(sig, []))
+            stage = 'run'
+            pe = ExecutionProofExp.from_proof_hints(iter(hints), sem)
+        except Exception as e:  # noqa: BLE001
+            return {'res': 'NONE', 'exc': '%s: %s' % (type(e).__name__, str(e)[:200]), 'stage': stage}
+        res = 'OK A %s C %s P %s' % (pats_str(pe._axioms), pats_str(pe._claims),
+                                     pats_str([t.conc for t in pe._proof_expressions]))
+        out = {'res': res}
+        try:
+            out['ser'] = serialize(pe)
+        except Exception as e:  # noqa: BLE001
+            out['ser_exc'] = '%s: %s' % (type(e).__name__, str(e)[:200])
+        return out
     if cmd in ('GEN', 'GEN2'):
         sig = p_sig(st)
         axs = [p_kore(st) for _ in range(st.int())]
